@@ -302,6 +302,52 @@ ABitwise(op, i, j) ==
                   r == BitSum(terms, 1, 1, [v |-> 0, lc |-> Zero]) IN
               Commit(pr.st, <<Obj(r.v, r.lc, "int")>>, [a |-> op, i |-> i, j |-> j, v |-> 0])
 
+\* ---- powers with a SECRET exponent (and shifts by a secret count, which are built on 2 ** count):
+\* the exponent is decomposed, all BL squarings are computed, each bit selects its power or ONE, the selections are multiplied up.
+\* Python-level values are reduced modulo P after every squaring and every product.
+RECURSIVE Squares(_, _, _, _)
+Squares(st, cur, n, acc) ==
+    IF n = 0 THEN [st |-> st, ps |-> acc]
+    ELSE LET w == New(st, cur.v * cur.v)
+             nx == [v |-> (cur.v * cur.v) % P, lc |-> Var(w.w)]
+         IN Squares(Emit(w.st, cur.lc, cur.lc, Var(w.w)), nx, n - 1, Append(acc, nx))
+\* bit == 1: the constant 1 becomes a boolean (its own boolean constraint 1 * (1 - 1) = 0 is emitted), then (bit - 1).check_zero()
+BitIsOne(st, bv, bw) ==
+    LET s1 == AddCon(st, 1, One, 0, Zero, 0, Zero, TRUE) IN CheckZero(s1, bv - 1, LSub(Var(bw), One))
+\* (if_then_else returns `truev` untouched when it IS `falsev`: the base of the power may be the very object that serves as guard,
+\*  and thereby as LinComb.ONE; `same` says so for the first power)
+RECURSIVE Picks(_, _, _, _, _, _)
+Picks(st, t, powers, k, acc, same) ==
+    IF k > Len(t.ws) THEN [st |-> st, ms |-> acc]
+    ELSE IF k = 1 /\ same THEN Picks(BitIsOne(st, t.bs[k], t.ws[k]).st, t, powers, k + 1, Append(acc, powers[k]), same)
+    ELSE LET r  == BitIsOne(st, t.bs[k], t.ws[k])
+             dv == powers[k].v - OneObj.v
+             n  == New(r.st, r.v * dv)
+             s2 == Emit(n.st, Var(r.w), LSub(powers[k].lc, OneObj.lc), Var(n.w))
+         IN Picks(s2, t, powers, k + 1, Append(acc, [v |-> OneObj.v + r.v * dv, lc |-> LAdd(OneObj.lc, Var(n.w))]), same)
+RECURSIVE ProdUp(_, _, _, _)
+ProdUp(st, res, ms, k) ==
+    IF k > Len(ms) THEN [st |-> st, v |-> res.v, lc |-> res.lc]
+    ELSE LET w == New(st, res.v * ms[k].v) IN
+         ProdUp(Emit(w.st, res.lc, ms[k].lc, Var(w.w)), [v |-> (res.v * ms[k].v) % P, lc |-> Var(w.w)], ms, k + 1)
+PowGadget(st, xv, x, yv, y, same) ==
+    LET t == ToBitsW(st, yv, y) IN
+    IF t.st.raised THEN [st |-> t.st, v |-> 0, lc |-> Zero]
+    ELSE LET sq == Squares(t.st, [v |-> xv, lc |-> x], BL, <<[v |-> xv, lc |-> x]>>)
+             pk == Picks(sq.st, t, sq.ps, 1, <<>>, same)
+         IN ProdUp(pk.st, [v |-> OneObj.v, lc |-> OneObj.lc], pk.ms, 1)
+PowRoom == Room(9 * BL + 6)
+GuardObj == IF gstack = <<>> THEN 0 ELSE gstack[Len(gstack)].o
+APowS(i, j) == PowRoom /\ LET r == PowGadget(St0, objs[i].v, objs[i].lc, objs[j].v, objs[j].lc, GuardObj = i) IN
+               Commit(r.st, <<Obj(r.v, r.lc, "int")>>, [a |-> "pows", i |-> i, j |-> j, v |-> 0])
+\* x << s = x * (2 ** s): the power gadget on the constant 2, then one multiplication
+ALShiftS(i, j) ==
+    PowRoom /\
+    LET r == PowGadget(St0, 2, LScale(One, 2), objs[j].v, objs[j].lc, FALSE) IN
+    IF r.st.raised THEN Commit(r.st, <<>>, [a |-> "lshifts", i |-> i, j |-> j, v |-> 0])
+    ELSE LET n == New(r.st, objs[i].v * r.v) IN
+         Commit(Emit(n.st, objs[i].lc, r.lc, Var(n.w)), <<Obj(objs[i].v * r.v, Var(n.w), "int")>>, [a |-> "lshifts", i |-> i, j |-> j, v |-> 0])
+
 \* ---- floor division and remainder: divmod, keeping one of the two results
 AFloorDiv(i, j) ==
     Room(4 * BL + 10) /\
@@ -368,7 +414,9 @@ AFxpLt(i, j) == Room(2 * BL + 4) /\ LET xv == objs[j].v - objs[i].v - 1 x == LAd
 \* guarded regions: add_guard with a boolean-typed (or 0/1 integer) secret condition; nested: guard & cond on the 0/1 LinCombs
 \* (LinComb.__and__ of two secrets decomposes both: not modelled -- regions are entered only from the top level here)
 AEnter(i) == /\ gstack = <<>> /\ objs[i].v \in {0, 1} /\ ~raised
-             /\ gstack' = <<[lc |-> objs[i].lc, v |-> objs[i].v]>>
+             \* o: which OBJECT the guard (and thereby LinComb.ONE) is -- an integer-typed condition is used as it is, a
+             \* boolean-typed one is unwrapped to its inner linear combination, which is none of the objects the program holds
+             /\ gstack' = <<[lc |-> objs[i].lc, v |-> objs[i].v, o |-> IF objs[i].k = "int" THEN i ELSE 0]>>
              /\ hist' = Append(hist, [a |-> "enter", i |-> i, j |-> 0, v |-> 0])
              /\ UNCHANGED <<wit, cons, objs, uign, raised>>
 ALeave == /\ gstack # <<>> /\ gstack' = <<>>
@@ -394,6 +442,7 @@ Next == /\ Len(hist) < MaxLen /\ ~raised
            \/ \E i, j \in Ints : ALt(i, j) \/ ATrueDiv(i, j) \/ ADivMod(i, j)
            \/ (Wide /\ \E i, j \in Ints : (\E o1 \in {"le", "gt", "ge"} : ACmp(o1, i, j)))
            \/ (Wide /\ \E i, j \in Ints : (AEq(i, j) \/ ANe(i, j) \/ AFloorDiv(i, j) \/ AMod(i, j)))
+           \/ (Wide /\ \E i, j \in Ints : (APowS(i, j) \/ ALShiftS(i, j)))
            \/ (Wide /\ \E i, j \in Ints : (\E o2 \in {"and", "or", "xor"} : ABitwise(o2, i, j)))
            \/ (Wide /\ \E i, j \in Ints : (\E o3 \in {"assert_lt", "assert_le", "assert_gt", "assert_ge", "assert_eq", "assert_ne"} : AAssert(o3, i, j)))
            \/ (Wide /\ \E i \in Ints : (ANeg(i) \/ AAbs(i) \/ AInvert(i)))
